@@ -59,7 +59,10 @@ func concParam(p string, quoted bool) string {
 	if v, ok := strings.CutPrefix(p, "ech="); ok {
 		return "ech=" + q + base64.StdEncoding.EncodeToString(pubCfg[v]) + q
 	}
-	k, v, _ := strings.Cut(p, "=")
+	k, v, ok := strings.Cut(p, "=")
+	if !ok {
+		return p // a parameter without a value (no-default-alpn)
+	}
 	return k + "=" + q + v + q
 }
 func absParam(p string) string {
@@ -88,13 +91,14 @@ type fakeRec struct {
 }
 
 type fakeCF struct {
-	mu      sync.Mutex
-	recs    []*fakeRec
-	patches []string
-	nList   int
-	nPatch  int
-	fail    pubFail
-	srv     *httptest.Server
+	mu       sync.Mutex
+	recs     []*fakeRec
+	patches  []string
+	nList    int
+	nPatch   int
+	fail     pubFail
+	softFail bool
+	srv      *httptest.Server
 }
 
 func recName(n string) string { return n + ".z1.example" }
@@ -128,7 +132,13 @@ func (f *fakeCF) handle(w http.ResponseWriter, req *http.Request) {
 	defer f.mu.Unlock()
 	req.ParseForm()
 	p := req.URL.Path
-	fail := func() { http.Error(w, `{"success":false,"errors":[{"code":1,"message":"scripted"}]}`, 400) }
+	fail := func() {
+		if f.softFail { // the API's other way of refusing: 200 with success=false and no error entries
+			fmt.Fprintln(w, `{"success": false, "errors": [], "result": null}`)
+			return
+		}
+		http.Error(w, `{"success":false,"errors":[{"code":1,"message":"scripted"}]}`, 400)
+	}
 	switch {
 	case req.Method == "GET" && p == "/client/v4/zones":
 		if f.fail.Kind == "zone" {
@@ -203,6 +213,7 @@ func replayPubCase(c *pubCase, idx int) (diff string) {
 	}()
 	f := newFakeCF(c.Init, idx%3 != 1) // every third zone stores unquoted values
 	defer f.srv.Close()
+	f.softFail = (idx/3)%2 == 1
 	u, _ := url.Parse(f.srv.URL)
 	u.Path = "/client/v4/zones"
 	cf := publish.NewCloudflarePublisher("token")
